@@ -290,16 +290,16 @@ theorem own_of_entitled {c : Ctx} (h : EntitledSigner c false) : OwnSigner c.g c
     inside a bracket a third party may withdraw and repay, never deposit or borrow in the account's name -/
 theorem world_tx_deposits_and_borrows_need_the_owner {w w' : WState} {tx : List TOp} (h : w.runTx tx = some w') (i : Nat) :
     (∀ ai bi signer amount upTo, tx[i]? = some (.ix (.deposit ai bi signer amount upTo)) →
-      ∃ (wi : WState) (a : AcctV), wi.accts[ai]? = some a ∧ OwnSigner wi.g a signer) ∧
+      ∃ (wi : WState) (a : AcctV), w.before tx i = some wi ∧ wi.accts[ai]? = some a ∧ OwnSigner wi.g a signer) ∧
     (∀ ai bi signer amount, tx[i]? = some (.ix (.borrow ai bi signer amount)) →
-      ∃ (wi : WState) (a : AcctV), wi.accts[ai]? = some a ∧ OwnSigner wi.g a signer) := by
+      ∃ (wi : WState) (a : AcctV), w.before tx i = some wi ∧ wi.accts[ai]? = some a ∧ OwnSigner wi.g a signer) := by
   refine ⟨?_, ?_⟩
   · intro ai bi signer amount upTo hi
-    obtain ⟨wi, a, b, o, ha, _, ho⟩ := tx_deposit_ran h hi
-    exact ⟨wi, a, ha, own_of_entitled ((world_user_instructions_need_entitled_signer _).1 amount upTo o ho).1⟩
+    obtain ⟨wi, a, b, o, hbef, ha, _, ho⟩ := tx_deposit_ran h hi
+    exact ⟨wi, a, hbef, ha, own_of_entitled ((world_user_instructions_need_entitled_signer _).1 amount upTo o ho).1⟩
   · intro ai bi signer amount hi
-    obtain ⟨wi, a, b, o, ha, _, ho⟩ := tx_borrow_ran h hi
-    exact ⟨wi, a, ha, own_of_entitled ((world_user_instructions_need_entitled_signer _).2.1 amount o ho).1⟩
+    obtain ⟨wi, a, b, o, hbef, ha, _, ho⟩ := tx_borrow_ran h hi
+    exact ⟨wi, a, hbef, ha, own_of_entitled ((world_user_instructions_need_entitled_signer _).2.1 amount o ho).1⟩
 
 end whole_instructions
 
